@@ -163,6 +163,42 @@ func registerNatives2(e *Engine) {
 		}
 	}
 
+	// ---- sort.Slice / sort.SliceStable on slices of concrete length: stable insertion sort, the
+	// comparison function is the caller's (symbolic comparisons fork) ----
+	sortSlice := func(ex *Exec, site ssa.Instruction, args []Value) Value {
+		iv, _ := args[0].(*Iface)
+		if iv == nil {
+			return nil
+		}
+		g, ok := iv.V.(*GSlice)
+		if !ok {
+			ex.fail("sort.Slice of %T", iv.V)
+		}
+		less, ok := args[1].(*Func)
+		if !ok || less == nil {
+			ex.nilDeref("sort.Slice with nil less")
+		}
+		if g.IsNil() || g.Len < 2 {
+			return nil
+		}
+		if g.Len > 32 {
+			ex.fail("sort.Slice of %d elements", g.Len)
+		}
+		ex.checkWritable(g.Vec.Frozen, g.Vec.ID, "sort.Slice")
+		lt := func(i, j int) bool {
+			r := ex.invoke(less, []Value{ex.tb().ConstI(int64(i), 64), ex.tb().ConstI(int64(j), 64)}, site)
+			return ex.branch(ex.term(r), nil)
+		}
+		for i := 1; i < g.Len; i++ {
+			for j := i; j > 0 && lt(j, j-1); j-- {
+				a, b := g.Vec.Elems[g.Off+j], g.Vec.Elems[g.Off+j-1]
+				a.V, b.V = b.V, a.V
+			}
+		}
+		return nil
+	}
+	n["sort.Slice"], n["sort.SliceStable"] = sortSlice, sortSlice
+
 	// ---- crypto/x509.CertPool as a bare container (harness groups that verify chains model it in Go) ----
 	n["crypto/x509.NewCertPool"] = func(ex *Exec, site ssa.Instruction, args []Value) Value {
 		p := ex.eng.Prog.ImportedPackage("crypto/x509")
